@@ -145,6 +145,10 @@ func (rq *retries) Add(obj any, rev statedb.Revision, origRev statedb.Revision, 
 	keyStr := string(key)
 	if item, ok = rq.items[keyStr]; !ok {
 		item = &retryItem{
+			// The revision of the change that failed. Kept over repeated failures
+			// of the same change (the status writes of the attempts bump the object's
+			// revision), so that the low watermark stays at the failing change.
+			origRev:    origRev,
 			numRetries: 0,
 			index:      -1,
 			revIndex:   -1,
@@ -153,7 +157,6 @@ func (rq *retries) Add(obj any, rev statedb.Revision, origRev statedb.Revision, 
 	}
 	item.object = obj
 	item.rev = rev
-	item.origRev = origRev
 	item.delete = delete
 	item.numRetries += 1
 	item.lastError = lastError
